@@ -274,6 +274,13 @@ def validate(ctx, cases):
             if c["sides"] is not None:
                 entry["numeric_check"] = rc.numeric_only_check(ctx, c, random.Random(ctx.seed + 2))
             skipped.append(entry)
+    pre_rng = random.Random(ctx.seed + 3)
+    n_pre = 0
+    for c in cases:
+        if c["status"] == "lemma" and rc.precheck(ctx, c, pre_rng):
+            c["status"] = "refuted"
+            n_pre += 1
+    ctx.coverage["refuted_numerically_before_coq"] = n_pre
     all_lemmas = []
     for c in cases:
         all_lemmas.append(c["wf"])
